@@ -1,0 +1,277 @@
+//go:build verif
+
+package autog
+
+// Verification hooks. This file is only compiled with the build tag "verif"; it adds code and changes none.
+// It re-exports what an external harness needs: the pipeline of Layout run one step at a time with a
+// snapshot of the internal graph between the steps, and thin wrappers around internal/geom.
+
+import (
+	"slices"
+
+	"github.com/nulab/autog/graph"
+	"github.com/nulab/autog/internal/geom"
+	ig "github.com/nulab/autog/internal/graph"
+	"github.com/nulab/autog/internal/graph/connected"
+	imonitor "github.com/nulab/autog/internal/monitor"
+	"github.com/nulab/autog/internal/phase2"
+	"github.com/nulab/autog/internal/processor"
+	"github.com/nulab/autog/internal/processor/postprocessor"
+	"github.com/nulab/autog/internal/processor/preprocessor"
+)
+
+type VerifNode struct {
+	ID         string
+	In, Out    []int
+	Layer      int
+	LayerPos   int
+	Virtual    bool
+	X, Y, W, H float64
+}
+
+type VerifEdge struct {
+	From, To       int
+	Delta, Weight  int
+	InTree         bool
+	Reversed       bool
+	Cut            int
+	Points         [][2]float64
+	ArrowHeadStart bool
+}
+
+type VerifLayer struct {
+	Nodes []int
+	Index int
+	W, H  float64
+}
+
+// VerifSnap is a deep copy of the working state. Nodes and Edges are arenas: every node and edge ever seen
+// during the trace has a fixed index (input nodes and edges first, in input order; helper nodes and edges in
+// the order they show up in DGraph.Nodes / DGraph.Edges). GN / GE / Layers are the lists of the graph (or the
+// connected component) the snapshot was taken of.
+type VerifSnap struct {
+	Label  string
+	Comp   int
+	Nodes  []VerifNode
+	Edges  []VerifEdge
+	GN, GE []int
+	Layers []VerifLayer
+	HasL   bool
+}
+
+type verifIndex struct {
+	nodes []*ig.Node
+	edges []*ig.Edge
+	nidx  map[*ig.Node]int
+	eidx  map[*ig.Edge]int
+}
+
+func (x *verifIndex) node(n *ig.Node) int {
+	if n == nil {
+		return -1
+	}
+	i, ok := x.nidx[n]
+	if !ok {
+		i = len(x.nodes)
+		x.nidx[n] = i
+		x.nodes = append(x.nodes, n)
+	}
+	return i
+}
+
+func (x *verifIndex) edge(e *ig.Edge) int {
+	if e == nil {
+		return -1
+	}
+	i, ok := x.eidx[e]
+	if !ok {
+		i = len(x.edges)
+		x.eidx[e] = i
+		x.edges = append(x.edges, e)
+	}
+	return i
+}
+
+func (x *verifIndex) snap(label string, comp int, g *ig.DGraph) VerifSnap {
+	s := VerifSnap{Label: label, Comp: comp}
+	// register in list order first so that arena indices follow DGraph.Nodes / DGraph.Edges
+	for _, n := range g.Nodes {
+		s.GN = append(s.GN, x.node(n))
+	}
+	for _, e := range g.Edges {
+		s.GE = append(s.GE, x.edge(e))
+	}
+	for _, l := range g.Layers {
+		if l == nil {
+			s.Layers = append(s.Layers, VerifLayer{Index: -1})
+			continue
+		}
+		vl := VerifLayer{Index: l.Index, W: l.W, H: l.H}
+		for _, n := range l.Nodes {
+			vl.Nodes = append(vl.Nodes, x.node(n))
+		}
+		s.Layers = append(s.Layers, vl)
+	}
+	s.HasL = g.Layers != nil
+	// the arenas can grow while they are walked (an edge list may mention an edge not seen before)
+	for i := 0; i < len(x.nodes) || i < len(x.edges); i++ {
+		if i < len(x.nodes) {
+			for _, e := range x.nodes[i].In {
+				x.edge(e)
+			}
+			for _, e := range x.nodes[i].Out {
+				x.edge(e)
+			}
+		}
+		if i < len(x.edges) {
+			x.node(x.edges[i].From)
+			x.node(x.edges[i].To)
+		}
+	}
+	for _, n := range x.nodes {
+		vn := VerifNode{ID: n.ID, Layer: n.Layer, LayerPos: n.LayerPos, Virtual: n.IsVirtual, X: n.X, Y: n.Y, W: n.W, H: n.H}
+		for _, e := range n.In {
+			vn.In = append(vn.In, x.edge(e))
+		}
+		for _, e := range n.Out {
+			vn.Out = append(vn.Out, x.edge(e))
+		}
+		s.Nodes = append(s.Nodes, vn)
+	}
+	for _, e := range x.edges {
+		s.Edges = append(s.Edges, VerifEdge{
+			From: x.node(e.From), To: x.node(e.To), Delta: e.Delta, Weight: e.Weight, InTree: e.IsInSpanningTree,
+			Reversed: e.IsReversed, Cut: e.CutValue, Points: slices.Clone(e.Points), ArrowHeadStart: e.ArrowHeadStart,
+		})
+	}
+	return s
+}
+
+// VerifTrace is Layout with a snapshot after every step. The statements between the snapshots are those of
+// Layout, in the same order; the harness checks that the returned layout equals the one of Layout.
+func VerifTrace(source graph.Source, opts ...Option) (out graph.Layout, snaps []VerifSnap) {
+	layoutOpts := defaultOptions
+	for _, opt := range opts {
+		opt(&layoutOpts)
+	}
+
+	imonitor.Set(layoutOpts.monitor)
+	defer imonitor.Reset()
+
+	pipeline := []processor.P{layoutOpts.p1, layoutOpts.p2, layoutOpts.p3, layoutOpts.p4, layoutOpts.p5}
+
+	G := from(source)
+	if len(G.Nodes) == 0 {
+		panic("autog: node set is empty")
+	}
+	if layoutOpts.params.NodeFixedSizeFunc != nil {
+		for _, n := range G.Nodes {
+			layoutOpts.params.NodeFixedSizeFunc(n)
+		}
+	}
+	if layoutOpts.params.NodeSizeFunc != nil {
+		for _, n := range G.Nodes {
+			layoutOpts.params.NodeSizeFunc(n)
+		}
+	}
+
+	x := &verifIndex{nidx: map[*ig.Node]int{}, eidx: map[*ig.Edge]int{}}
+	snaps = append(snaps, x.snap("populated", -1, G))
+
+	shift := 0.0
+	for ci, g := range connected.Components(G) {
+		if len(g.Nodes) == 0 {
+			panic("autog: connected sub-graph node set is empty: this might be a bug")
+		}
+		snaps = append(snaps, x.snap("component", ci, g))
+
+		restoreSelfLoops := preprocessor.IgnoreSelfLoops(g)
+		snaps = append(snaps, x.snap("noselfloops", ci, g))
+
+		for pi, phase := range pipeline {
+			phase.Process(g, layoutOpts.params)
+			snaps = append(snaps, x.snap([]string{"phase1", "phase2", "phase3", "phase4", "phase5"}[pi], ci, g))
+		}
+
+		restoreSelfLoops(g)
+		postprocessor.UnreverseEdges(g)
+		snaps = append(snaps, x.snap("restored", ci, g))
+
+		for _, n := range g.Nodes {
+			if n.IsVirtual && !layoutOpts.output.includeVirtual {
+				continue
+			}
+			m := graph.Node{ID: n.ID, Size: n.Size}
+			m.X += shift
+			out.Nodes = append(out.Nodes, m)
+		}
+		for _, e := range g.Edges {
+			f := graph.Edge{FromID: e.From.ID, ToID: e.To.ID, Points: slices.Clone(e.Points), ArrowHeadStart: e.ArrowHeadStart}
+			for i := range f.Points {
+				f.Points[i][0] += shift
+			}
+			out.Edges = append(out.Edges, f)
+		}
+		rightmostX := 0.0
+		for _, l := range g.Layers {
+			if len(l.Nodes) == 0 {
+				continue
+			}
+			n := l.Nodes[len(l.Nodes)-1]
+			rightmostX = max(rightmostX, n.X+n.W)
+		}
+		shift += rightmostX + layoutOpts.params.NodeSpacing
+	}
+	return out, snaps
+}
+
+// VerifNetworkSimplexCapped reports whether network-simplex layering of the given acyclic edge list, run as
+// one connected component, would stop on its iteration budget rather than on optimality.
+func VerifNetworkSimplexCapped(source graph.Source, thoroughness uint) (capped bool, iterations int) {
+	G := from(source)
+	return phase2.VerifCapped(G, ig.Params{NetworkSimplexThoroughness: thoroughness, NetworkSimplexBalance: ig.OptionNsBalanceV})
+}
+
+// ---- internal/geom ----
+
+type VerifRect struct{ TLX, TLY, BRX, BRY float64 }
+
+func verifRects(rs []VerifRect) []geom.Rect {
+	out := make([]geom.Rect, len(rs))
+	for i, r := range rs {
+		out[i] = geom.Rect{TL: geom.P{X: r.TLX, Y: r.TLY}, BR: geom.P{X: r.BRX, Y: r.BRY}}
+	}
+	return out
+}
+
+func VerifShortest(p1, p2 [2]float64, rs []VerifRect) [][2]float64 {
+	path := geom.Shortest(geom.P{X: p1[0], Y: p1[1]}, geom.P{X: p2[0], Y: p2[1]}, verifRects(rs))
+	out := make([][2]float64, len(path))
+	for i, p := range path {
+		out[i] = [2]float64{p.X, p.Y}
+	}
+	return out
+}
+
+// VerifFitSpline runs the shortest-path router and the spline fitter the way phase 5 does and returns the
+// path (end to start) and the cubic pieces, each as four control points, in the order FitSpline returns them.
+func VerifFitSpline(p1, p2 [2]float64, rs []VerifRect) (path [][2]float64, pieces [][4][2]float64) {
+	rects := verifRects(rs)
+	pts := geom.Shortest(geom.P{X: p1[0], Y: p1[1]}, geom.P{X: p2[0], Y: p2[1]}, rects)
+	for _, p := range pts {
+		path = append(path, [2]float64{p.X, p.Y})
+	}
+	if len(pts) == 2 {
+		return path, nil
+	}
+	poly := geom.MergeRects(rects)
+	for _, c := range geom.FitSpline(pts, geom.P{}, geom.P{}, poly.Sides()) {
+		s := c.Float64Slice()
+		pieces = append(pieces, [4][2]float64{s[0], s[1], s[2], s[3]})
+	}
+	return path, pieces
+}
+
+func VerifSolve3(coeff [4]float64) []float64 {
+	return geom.VerifSolve3(coeff)
+}
